@@ -111,6 +111,12 @@ def work(chunk_id, payload):
             bump("kit_pools")
         else:
             sc.sufficient_recipe(extras=int(rng.integers(0, 3)))
+            if sc.r != sc.c and sc.ctype in physics.LEAKAGE_OUTSIDE and \
+                    rng.random() < 0.5:
+                # measured on their own ports only wherever the API allows:
+                # a leakage cell is then sampled only by the standards on
+                # the other side of it
+                sc.abbr_all = True
             sc.choose_entries()
         if not sc.well_determined(1e4)[0]:
             bump("pools_not_determining_skipped")
